@@ -16,7 +16,11 @@ from props.c05 import ref_fit, allclose, fxs, bits, unf_opt, guard, frame_hash, 
 
 REQUIRED = ['numer_order_free', 'cond_const_eq_uncond', 'stoch_iptw_const_eq_uncond', 'stoch_iptw_order_free', 'mc_assign_order_free', 'gf_assign_order_free', 'p_one_zero',
             'gf_p_one_zero', 'tmle_mc_degenerate', 'stoch_iptw_mixture', 'mc_mixture_realised', 'mc_average_mixture',
-            'tmle_eps_zero']
+            'tmle_eps_zero',
+            # ties to the source (Props/C14_Gen, C14_GfStoch): generated definitions = the model
+            'stoch_iptw_fit_generated', 'numer_order_free_generated', 'p_one_zero_generated', 'stoch_iptw_mixture_generated',
+            'gf_stoch_fit_generated', 'gf_stoch_size_generated', 'gf_order_free_generated', 'gf_p_one_zero_generated',
+            'mc_average_mixture_generated']
 RULE = ('categorical data sets (1-3 covariates of arity 2-4, <= 12 strata, positivity by construction; binary / normal '
         'outcomes) with saturated models, and mixed data sets (categorical + continuous predictors) with non-saturated '
         'models; plans: unconditional p on the grid {0, .2, .5, .75, 1}, and 2-4 exclusive exhaustive conditions over the '
@@ -284,7 +288,10 @@ def siptw_cell(chk, drv, df, cfg, rec):
         orders = [None] if conds is None else [list(range(len(conds))), list(range(len(conds)))[::-1]]
         for od in orders:
             pp, cc = (p, conds) if od is None else ([p[i] for i in od], [conds[i] for i in od])
-            rep, _ = drv.ask('stochw', c='f', g=fxs(g), **enc_rows_f(df, sid, wcol), **plan_kw(pp, cc, df))
+            # the op runs the definition regenerated from the text of StochasticIPTW.fit (Gen.stoch_iptw_fit); `hasw` = a
+            # weight column was given (the `if self.weights is not None` branch)
+            rep, _ = drv.ask('stochw', c='f', g=fxs(g), hasw=int(bool(wcol)), **enc_rows_f(df, sid, wcol),
+                             **plan_kw(pp, cc, df))
             chk.k(rep['status'] == 'ok' and rep['m'] != '_' and close(unfx(rep['m']), base, **TOLD),
                   'StochasticIPTW = Lean model on the reference predictions', dict(case, model=rep.get('m'), order=od))
 
@@ -425,16 +432,21 @@ def gf_cell(chk, drv, df, cfg, rec):
         q0 = np.asarray(om.predict(df.assign(A=0)))
         sid = cl['sid'] if cl else np.zeros(len(df), dtype=int)
         chosen = '|'.join(';'.join(enc_list(np.flatnonzero(t & mk).tolist(), str) for mk in masks) for t in treated)
+        # the op runs the definition regenerated from the text of fit_stochastic (Gen.gf_stoch_fit) on the captured
+        # draws: rows carry the observed flag, the options are the call's own (`mm` = hand model, for cross-check)
         rows = enc_rows_f(df.assign(Y=df['Y'].fillna(0.0)), sid, wcol)
-        if not pm:
-            rows['w'] = fxs(df['Y'].notna().values.astype(float) * (df[wcol].values if wcol else 1.0))
-        rep, _ = drv.ask('gfmc', c='f', tgt=tgt, q1=fxs(q1), q0=fxs(q0), chosen=chosen, **rows)
+        rows['obs'] = bits(df['Y'].notna().values)
+        plan = {} if conds is None else {'ps': fxs(p), 'masks': ';'.join(bits(mk) for mk in masks)}
+        rep, _ = drv.ask('gfstoch', c='f', tgt=tgt, hascond=int(conds is not None), hasw=int(bool(wcol)), pm=int(bool(pm)),
+                         q1=fxs(q1), q0=fxs(q0), chosen=chosen, **rows, **plan)
         chk.k(rep['status'] == 'ok' and close(unfx(rep['m']), base, **TOLD),
               'stochastic g-formula = Lean model on the reference predictions and the captured draws',
               dict(case, model=rep.get('m')))
+        chk.k(rep['status'] == 'ok' and close(unfx(rep['mm']), unfx(rep['m']), **TOLD),
+              'stochastic g-formula: generated definition = hand model on the same draws', dict(case, model=rep.get('mm')))
         ok = True
         for mk, pk in zip(masks, plist):
-            r2, _ = drv.ask('plansize', c='f', p=fx(pk), n=int(mk.sum()))
+            r2, _ = drv.ask('plansize', c='f', p=fx(pk), n=int(mk.sum()), cond=int(conds is not None))
             ok = ok and r2['status'] == 'ok' and int(r2['size']) == int((treated[0] & mk).sum())
         chk.k(ok, 'treated counts = Lean planSize (floor of the floating-point product)', case)
 
@@ -588,7 +600,7 @@ def stmle_cell(chk, drv, df, cfg, rec):
         qa = np.asarray(om.predict(df))
         sid = cl['sid'] if cl else np.zeros(n, dtype=int)
         # clever covariate from the Lean model -> reference targeting fit -> epsilon
-        rep, _ = drv.ask('stochw', c='f', g=fxs(g), **enc_rows_f(df, sid), **plan_kw(p, conds, df))
+        rep, _ = drv.ask('stochw', c='f', g=fxs(g), hasw=0, **enc_rows_f(df, sid), **plan_kw(p, conds, df))
         ok = rep['status'] == 'ok' and '_' not in rep['haw'].split(',')
         if ok:
             haw = unf_opt(rep['haw'])
